@@ -303,3 +303,16 @@ def script_c19(case, naming, tier, seed):
         events.append(_exec_any(other, 2, other_kind, b.model, naming, b, k + 1))
         events.append(_exec_any(shared, 1, op, b.model, naming, b, k + 1))
     return events, None
+
+
+# ---------------------------------------------------------------------------
+@prop('C20', ['Eq', 'Eq2'], name_classes=('plain', 'afmword', 'space'), naming_matters=True,
+      assumptions=['names never differ only in letter case (the one situation where the statement allows either answer)',
+                   'features carry no attributes in this family; equality ignores them'])
+def script_c20(case, naming, tier, seed):
+    from build import build_from_model
+    b, ev = load_event(case, naming)
+    other, _ = build_from_model(case['other'], naming, case['how'])
+    events = [ev, {'a': 'Other', 'args': {'model': case['other']}, 'out': 'value'},
+              observe.compare(b.model, other, naming, case['how'], case['edit'])]
+    return events, {'key': [case['how'], case['edit']], 'nontrivial': True}
